@@ -396,6 +396,7 @@ def r05_3(prog, out):
 
 @rule("C05", "R05.5", "every ack id handed to the batch parser has its own seconds value (zip cannot truncate)", floor=2)
 @rule("C03", "R05.5", "every ack id handed to the batch parser has its own seconds value (zip cannot truncate)", floor=2)
+@rule("C17", "R05.5", "every ack id handed to the batch parser has its own seconds value (zip cannot truncate)", floor=2)
 def r05_5(prog, out):
     A = prog.anchors
     sl = Slicer(prog)
@@ -415,6 +416,33 @@ def r05_5(prog, out):
         out.undecided("parser-signature", prog.loc(parser[0]), "batch parser does not take an id list and a seconds list")
         return
     zips = any(t.callee.path == "std::iter::Iterator::zip" for bb, t in prog.info(parser[0]).calls())
+    # the seconds side is repeated (`zip(secs.iter().cycle())`): a shorter list is stretched over the ids instead of cutting them
+    cycles = False
+    for zbb0, zt0 in prog.info(parser[0]).calls(lambda c: c.path == "std::iter::Iterator::zip"):
+        for a in zt0.args[:2]:
+            sa = sl.of(parser[0], a)
+            if any(c.split("::")[-1] == "cycle" for c in sa.calls) and any(r[0] == "param" and r[2] == lists[1] for r in sa.roots):
+                cycles = True
+    # the parser walks the ids and looks the seconds up by position with a fallback (`secs.get(i).copied().unwrap_or_default()`):
+    # an id without a value of its own gets a made-up one
+    invents = None
+    for cid in prog.cone(parser[0], follow=("call", "closure")):
+        ci = prog.info(cid)
+        if ci is None:
+            continue
+        for fbb, ft in ci.calls(lambda c: c.path.split("::")[-1] in ("unwrap_or_default", "unwrap_or", "unwrap_or_else") and "Option" in c.path):
+            sf = sl.of(cid, ft.args[0])
+            if not any(c.split("::")[-1] in ("get", "nth", "next") for c in sf.calls):
+                continue
+            # one level up: captured variables of a closure of the parser
+            roots = set(sf.roots)
+            for r in list(roots):
+                if r[0] == "upvar" and r[1] != parser[0]:
+                    ex = sl._resolve_root(r)
+                    if ex is not None:
+                        roots |= ex.roots
+            if any(r[0] == "param" and r[1] == parser[0] and r[2] == lists[1] for r in roots):
+                invents = ci.loc(fbb)
     # inside the parser: the i-th id is paired with the i-th seconds value -- nothing drops or skips elements of one side
     # before the zip (a `filter` / `dedup` on the ids shifts every later pair)
     CUT = {"filter", "filter_map", "skip", "skip_while", "take", "take_while", "step_by", "dedup", "dedup_by_key", "retain", "rev", "chain", "flat_map",
@@ -514,10 +542,25 @@ def r05_5(prog, out):
                                             fl |= sl.of(hid, hi2.call_at(o.data).args[0]).fields
                                     if (s_ids.fields & fl) and (s_secs.fields & fl) and len(fl) >= 2:
                                         guarded = True
+            # a literal one-element list handed to a parser that repeats the seconds: the same value for every id
+            o_secs = bi.trace(a_secs)
+            fixed = None
+            if o_secs.kind == "agg" and not o_secs.path:
+                ag = bi.agg_at(o_secs.data)
+                if ag.j.get("ak") == "array":
+                    fixed = len(ag.ops)
             if derived:
                 out.holds(key, bi.loc(bb), "the seconds list is built with one element per ack id")
             elif guarded:
                 out.holds(key, bi.loc(bb), "a length comparison of the two lists rejects a mismatch before parsing")
+            elif cycles and fixed:
+                out.holds(key, bi.loc(bb), "a literal list of %d value(s) is repeated over the ack ids by the parser" % fixed)
+            elif cycles:
+                out.violation(key, bi.loc(bb), "the batch parser repeats a shorter seconds list over the ack ids (cycle) and nothing rejects lists of different length "
+                              "before it is called: an inconsistent request is accepted and applied (and an empty seconds list silently drops every ack id)")
+            elif invents:
+                out.violation(key, bi.loc(bb), "the batch parser gives an ack id that has no seconds value of its own a made-up one (fallback at %s; 0 seconds is a nack) and "
+                              "nothing rejects lists of different length before it is called: the server releases leases nobody asked it to release" % invents)
             elif not zips:
                 out.undecided(key, bi.loc(bb), "the parser does not zip the lists")
             else:
